@@ -17,6 +17,8 @@ ap.add_argument('ids', nargs='+')
 ap.add_argument('--jobs', default='7')
 ap.add_argument('--no-quick', action='store_true')
 ap.add_argument('--no-targeted', action='store_true')
+ap.add_argument('--skip-done', action='store_true', help='skip (change, check, stage) rows already present in RESULTS.json')
+ap.add_argument('--no-replay', action='store_true', help='list counterexamples without the native replay (exit 3); saves two cargo-kani runs per detection')
 a = ap.parse_args()
 targets = {}
 for line in (V / 'seeded' / 'targets.tsv').read_text().splitlines():
@@ -27,14 +29,21 @@ for line in (V / 'seeded' / 'targets.tsv').read_text().splitlines():
 rp = V / 'seeded' / 'RESULTS.json'
 
 def run(sid, wt, chk, stage, only):
+    if a.skip_done and rp.exists():
+        prev = json.loads(rp.read_text()).get(f'{sid}/{chk}/{stage}')
+        if prev:
+            print(sid, chk, stage, 'already evaluated:', 'DETECTED' if prev['detected'] else 'missed', flush=True)
+            return prev
     env = dict(os.environ, VERIF_REPO=str(wt), VERIF_JOBS=a.jobs)
+    if a.no_replay:
+        env['VERIF_NO_REPLAY'] = '1'
     t0 = time.time()
     cmd = f'{V}/bin/check {chk} --no-evidence ' + ('--tier quick' if stage == 'quick' else f'--tier thorough --only {only}')
     p = subprocess.run(cmd, shell=True, text=True, capture_output=True, env=env, cwd=V)
     viol = [l for l in p.stdout.splitlines() if l.startswith('VIOLATION')]
     fails = [l.split()[1].split('::')[-1] for l in p.stdout.splitlines() if l.strip().startswith('FAIL')]
     inconc = [l.split()[1].split('::')[-1] for l in p.stdout.splitlines() if l.strip().startswith('INCONCLUSIVE ') and '::' in l]
-    r = {'exit': p.returncode, 'detected': p.returncode == 1 and bool(viol), 'violations': viol, 'failing': fails,
+    r = {'exit': p.returncode, 'detected': (p.returncode == 1 and bool(viol)) or (p.returncode == 3 and bool(fails)), 'replayed': p.returncode == 1, 'violations': viol, 'failing': fails,
          'inconclusive': inconc, 'wall_s': round(time.time() - t0), 'stage': stage, 'only': only if stage != 'quick' else None}
     (V / 'seeded' / sid / f'result_{chk}_{stage}.txt').write_text(p.stdout[-20000:])
     allr = json.loads(rp.read_text()) if rp.exists() else {}
